@@ -16,6 +16,7 @@ const (
 	ctlContinue
 	ctlReturn
 	ctlFallthrough
+	ctlGoto
 )
 
 type ctl struct {
@@ -24,8 +25,24 @@ type ctl struct {
 }
 
 func (bx *BX) execBlock(fr *bframe, list []ast.Stmt) ctl {
-	for _, s := range list {
-		if c := bx.exec(fr, s, ""); c.k != ctlNone {
+	for i := 0; i < len(list); i++ {
+		c := bx.exec(fr, list[i], "")
+		if c.k == ctlGoto {
+			// jump to a label in this statement list (backward or forward); otherwise propagate outwards
+			found := -1
+			for j, s := range list {
+				if ls, ok := s.(*ast.LabeledStmt); ok && ls.Label.Name == c.label {
+					found = j
+				}
+			}
+			if found < 0 {
+				return c
+			}
+			bx.tick()
+			i = found - 1
+			continue
+		}
+		if c.k != ctlNone {
 			return c
 		}
 	}
@@ -148,7 +165,10 @@ func (bx *BX) exec(fr *bframe, s ast.Stmt, label string) ctl {
 		case token.FALLTHROUGH:
 			return ctl{k: ctlFallthrough}
 		}
-		bx.abort("unsupported", "goto")
+		if x.Tok == token.GOTO {
+			return ctl{k: ctlGoto, label: l}
+		}
+		bx.abort("unsupported", "branch statement")
 	case *ast.DeferStmt:
 		call := x.Call
 		// evaluate function value and arguments now
@@ -203,7 +223,9 @@ func (bx *BX) execAssign(fr *bframe, x *ast.AssignStmt) {
 				b := bx.eval(fr, r.X)
 				var v BVal = bx.zero(elemTypeOf(bx.typeOf(fr, r.X)))
 				ok := false
-				if m, isM := b.(*BMap); isM {
+				if m, isM := b.(*BMap); isM && len(m.m) == 0 {
+					bx.eval(fr, r.Index)
+				} else if isM {
 					k := bx.mapKey(bx.eval(fr, r.Index))
 					if mv, has := m.m[k]; has {
 						v, ok = mv, true
@@ -767,8 +789,25 @@ func (bx *BX) builtin(fr *bframe, name string, x *ast.CallExpr) BVal {
 }
 
 // native models a few standard-library functions without source in the subset.
+var nativeOverride = map[string]bool{
+	"sync.(*RWMutex).RLock": true, "sync.(*RWMutex).RUnlock": true, "sync.(*RWMutex).Lock": true, "sync.(*RWMutex).Unlock": true,
+	"sync.(*Mutex).Lock": true, "sync.(*Mutex).Unlock": true,
+	"errors.New": true, "bytes.Equal": true,
+	"encoding/base64.(*Encoding).EncodedLen": true, "encoding/base64.(*Encoding).DecodedLen": true,
+	"encoding/base64.(*Encoding).Encode": true, "encoding/base64.(*Encoding).Decode": true,
+}
+
 func (bx *BX) native(f *BFunc, args []BVal, fr *bframe, x *ast.CallExpr) BVal {
 	switch f.builtin {
+	case "sync.(*RWMutex).RLock", "sync.(*RWMutex).RUnlock", "sync.(*RWMutex).Lock", "sync.(*RWMutex).Unlock", "sync.(*Mutex).Lock", "sync.(*Mutex).Unlock":
+		return nil
+	case "errors.New":
+		return BIface{t: types.NewPointer(types.Typ[types.String]), v: BPtr{v: &BVar{v: args[0]}}}
+	case "encoding/base64.(*Encoding).DecodedLen":
+		n := bx.concInt(args[0].(*Term), "DecodedLen argument")
+		return IntK(n / 4 * 3)
+	case "encoding/base64.(*Encoding).Encode", "encoding/base64.(*Encoding).Decode":
+		bx.abort("excluded", "base64 branch (encoding/base64 is an assumed dependency; outside the bounded claim)")
 	case "bytes.Equal":
 		a, b := args[0].(BSlice), args[1].(BSlice)
 		if a.len != b.len {
